@@ -14,7 +14,7 @@ LEVEL_TEXT = ("Hashes.tla transcribes the PUBLISHED definitions (lookup2.c mix/h
               "vectors for ALL key lengths 0..40 over structured and seeded pseudo-random contents and 5-7 seeds. Every vector is "
               "evaluated on the ASan build of the current tree at all 8 alignments, key ending at / starting behind a redzone, after an "
               "adversarial prelude (same address other content, errno, run-time debug level) and, for the empty key, as (NULL, 0) "
-              "(39-41 calls per vector). Values recorded from the library on long keys - a size sweep n-1..n+12 around every "
+              "(44-46 calls per vector incl. calls BY NAME on a rewritten buffer; the whole set twice: harness call sites at -O1 and -O2). Values recorded from the library on long keys - a size sweep n-1..n+12 around every "
               "threshold n in 64..12288 for every function - are validated by TLC (HashesTrace.tla). Keys of 2^31..2^32-1 bytes "
               "(MAP_NORESERVE mapping with non-zero islands) are compared with the fold of native copies of the spec's step operators, "
               "which TLC binds to the spec (OpSteps vectors, FoldLaw).")
@@ -27,7 +27,7 @@ DESIGN_REF = "DESIGN.md section 6 C18"
 
 OPS = ["jenkins", "jenkinsLE", "jenkins32", "rotating", "one_at_a_time", "fnv"]
 ACTIONS = ["OpJenkins", "OpJenkinsLE", "OpJenkins32", "OpRotating", "OpRotatingPublished", "OpOneAtATime", "OpFnv", "OpSteps"]
-CALLS_PER_VECTOR = 39          # library calls made by harness/hash_replay.c for one vector (it asserts the same number) ...
+CALLS_PER_VECTOR = 44          # library calls made by harness/hash_replay.c for one vector (it asserts the same number) ...
 CALLS_EXTRA_EMPTY = 2          # ... plus the (NULL, 0, seed) placement of the empty key at run-time debug level 0 and 5
 SWEEP_N = [64, 128, 256, 512, 1024, 2048, 4096, 6144, 8192, 12288]      # size thresholds swept in direction (B)
 
@@ -36,8 +36,11 @@ def ncalls(vectors):
     return sum(CALLS_PER_VECTOR + (CALLS_EXTRA_EMPTY if nunits(e) == 0 else 0) for e in vectors if e["op"] != "steps")
 
 
-def harness(ctx):
+def harness(ctx, opt=None):
+    """The replay harness; opt="-O2": the same source with its call sites optimised harder (the library itself stays -O1/ASan)."""
     libdir, cflags = build.build_lib(ctx.repo)
+    if opt:
+        return build.build_harness("hash_replay" + opt.replace("-", "_"), ["hash_replay.c"], libdir, cflags, extra=[opt])
     return build.build_harness("hash_replay", ["hash_replay.c"], libdir, cflags)
 
 
@@ -111,8 +114,10 @@ def tlc_vectors(ctx, cfg):
     return vecs
 
 
-def replay_vectors(ctx, exe, vecs):
-    """Direction (A): every vector on the real functions, all alignments/placements, under ASan."""
+def replay_vectors(ctx, exe, vecs, opt=None):
+    """Direction (A): every vector on the real functions, all alignments/placements, under ASan.  opt: the harness binary whose
+    call sites are compiled at that optimisation level (second pass)."""
+    pre = ("callers%s " % opt) if opt else ""
     # the same (op, key, seed) is generated once per distinct state; keep the set
     seen = {}
     for e in vecs:
@@ -122,7 +127,7 @@ def replay_vectors(ctx, exe, vecs):
         seen[k] = e
     uniq = [seen[k] for k in sorted(seen)]
     texts = [script_text(i + 1, e) for i, e in enumerate(uniq)]
-    fails, _, ns, nt = run_scripts(exe, [], texts, ctx.rundir, jobs=4, tag="vec")
+    fails, _, ns, nt = run_scripts(exe, [], texts, ctx.rundir, jobs=4, tag="vec" + (opt or ""))
     # one vector = one single-step script; ns counts every script that was started (a crashed one included),
     # the harness' own step count (nt) is lost for a process that dies, so it is only checked on a clean run
     if ns != len(uniq) or (not fails and nt != len(uniq)):
@@ -131,21 +136,25 @@ def replay_vectors(ctx, exe, vecs):
     nrep = 0
     for f in fails:
         e = uniq[f.sid - 1]
-        key = fail_key(e, f)
-        what = "%s(key=%s (%d units), seed=%s): %s exp=%s got=%s %s" % (
-            e["op"], tok(e["args"]["key"])[:120], nunits(e), hexv(e["args"]["seed"]), f.kind, f.exp, f.got, f.sig)
-        if ctx.report(key, what, {"harness_args": [], "script_text": texts[f.sid - 1], "vector": e, "failure": repr(f), "detail": f.detail}):
+        key = pre + fail_key(e, f)
+        what = "%s%s(key=%s (%d units), seed=%s): %s exp=%s got=%s %s" % (
+            pre, e["op"], tok(e["args"]["key"])[:120], nunits(e), hexv(e["args"]["seed"]), f.kind, f.exp, f.got, f.sig)
+        if ctx.report(key, what, {"harness_args": [], "harness_opt": opt, "script_text": texts[f.sid - 1], "vector": e, "failure": repr(f),
+                                  "detail": f.detail}):
             nrep += 1
         if len(ctx.violations) > 60:
             ctx.notes.append("stopped reporting after 60 distinct violation keys")
             break
     nontriv = sum(1 for e in uniq if nunits(e) > 0 and e["op"] != "steps")
     nstepvec = sum(1 for e in uniq if e["op"] == "steps")
-    ctx.add("native_step_vectors_bound_to_TLC", nstepvec)      # c18_ref.h operators == Hashes.tla operators (no library call)
     nt -= nstepvec
     ctx.add("evaluations", nt)
-    ctx.add("distinct_nontrivial", nontriv)
     ctx.add("impl_calls", ncalls(uniq))
+    if opt:
+        ctx.cov["vectors_replayed_with_call_sites_at" + opt] = {"vectors": nt, "failed_steps": len(fails)}
+        return uniq
+    ctx.add("native_step_vectors_bound_to_TLC", nstepvec)      # c18_ref.h operators == Hashes.tla operators (no library call)
+    ctx.add("distinct_nontrivial", nontriv)
     ctx.cov["vectors"] = {"distinct": len(uniq), "failed_steps": len(fails),
                           "per_function": {op: sum(1 for e in uniq if e["op"] == op) for op in OPS},
                           "key_lengths": "%d..%d bytes" % (min(nunits(e) for e in uniq if e["op"] != "jenkins32"),
@@ -364,6 +373,9 @@ def run(ctx):
     cfg = "Hashes_quick.cfg" if ctx.tier == "quick" else "Hashes_thorough.cfg"
     vecs = tlc_vectors(ctx, cfg)
     replay_vectors(ctx, exe, vecs)
+    # the header is part of the contract: the same vectors with the harness' call sites (calls BY NAME on a rewritten buffer,
+    # placement B) compiled at -O2; the library objects are the same
+    replay_vectors(ctx, harness(ctx, "-O2"), vecs, opt="-O2")
     record_and_validate(ctx, exe)
     huge_family(ctx, exe)
     ctx.cov["exhaustive"] = False
@@ -389,4 +401,4 @@ def replay(ctx, path):
         res = run_tlc("MC_Hashes.tla", rp["tlc_cfg"], ctx.rundir, workers=4, timeout=1500, env=tlc_env(ctx), coverage=False)
         print("TLC:", "no error" if res.ok else res.violation)
         return 0 if res.ok else 1
-    return objcheck.replay_file(harness(ctx), [], path, ctx.rundir, env={"VH_WATCHDOG": "1500"})
+    return objcheck.replay_file(harness(ctx, rp.get("harness_opt")), [], path, ctx.rundir, env={"VH_WATCHDOG": "1500"})
